@@ -80,7 +80,7 @@ fn leg_nat(ctx: &Ctx, out: &mut Out) {
             }
             let r = guard(|| check_nat(n, out));
             match r {
-                Ok(None) => {}
+                Ok(None) => out.sample(leg, || (format!("n={n}"), format!("code word {}; all result types and bounds agree", bits_str(&ref_encode_natural(n))))),
                 Ok(Some((class, d))) => out.violation(&class, leg, format!("n={n}"), d),
                 Err(p) => out.violation(&panic_class(&p), leg, format!("n={n}"), p),
             }
@@ -191,7 +191,7 @@ fn leg_strings(ctx: &Ctx, out: &mut Out) {
                 out.evaluations += 1;
                 let r = guard(|| check_string(&bytes, out));
                 match r {
-                    Ok(None) => {}
+                    Ok(None) => out.sample(leg, || (format!("bytes={}", hex(&bytes)), format!("read_natural agrees with reference: {:?}", ref_decode_natural(&bytes_to_bits(&bytes), 0)))),
                     Ok(Some((class, d))) => out.violation(&class, leg, format!("bytes={}", hex(&bytes)), d),
                     Err(p) => out.violation(&panic_class(&p), leg, format!("bytes={}", hex(&bytes)), p),
                 }
@@ -310,7 +310,7 @@ fn leg_writer(ctx: &Ctx, out: &mut Out) {
             out.states += 1;
             let r = guard(|| check_writer(ops, out));
             match r {
-                Ok(None) => {}
+                Ok(None) => out.sample(leg, || (format!("{ops:?}"), "bytes, counters and read-back equal the Vec<bool> model".into())),
                 Ok(Some((class, d))) => out.violation(&class, leg, format!("{ops:?}"), d),
                 Err(p) => out.violation(&panic_class(&p), leg, format!("{ops:?}"), p),
             }
@@ -401,9 +401,13 @@ fn leg_reader(ctx: &Ctx, out: &mut Out) {
                     continue;
                 }
                 out.evaluations += 1;
+                let s0 = out.states;
                 let r = guard(|| explore_reader(&bytes, 0, bytes.len() * 8, out));
                 match r {
-                    Ok(None) => {}
+                    Ok(None) => {
+                        let ns = out.states - s0;
+                        out.sample(leg, || (format!("bytes={}", hex(&bytes)), format!("{ns} reachable reader states, 9 ops from each, invariant and model hold")))
+                    }
                     Ok(Some((class, d))) => out.violation(&class, leg, format!("bytes={}", hex(&bytes)), d),
                     Err(p) => out.violation(&panic_class(&p), leg, format!("bytes={}", hex(&bytes)), p),
                 }
